@@ -854,7 +854,10 @@ def matrix_inverse_pth_root(
   if matrix_size == 1:
     damped_matrix = matrix + ridge_epsilon
     resultant_mat_h = damped_matrix**alpha
-    error = jnp.array(0, jnp.float32)
+    # The scalar root is exact unless it is not finite (NaN/Inf statistic, or
+    # a zero statistic with a zero ridge), which must be reported.
+    error = jnp.where(jnp.isfinite(resultant_mat_h).all(), 0.0,
+                      jnp.nan).astype(jnp.float32)
     iters = 0
     error_ratio = 0.0
     total_retries = 1
